@@ -32,7 +32,7 @@ def c12_histories(rng, tier):
         for k in range(1, 17):
             o1 = 2 ** k
             o2 = 2 ** rng.randrange(1, 9)
-            n = min(o1 * 2 + 10, 500 if tier == "quick" else 20000)
+            n = min(o1 * 2 + 10, 500 if tier == "quick" else 3000)
             h = ["begin", "slot 0", "new %s %d" % (ty, o1), "slot 1", "new %s %d" % (ty, o2)]
             pool = genseq.key_pool(rng, ty, "small", max(8, min(n, 4000)))
             for i in range(n):
